@@ -8,6 +8,9 @@ claimed={
    text="Every path of FastLog2Floor, CompactToBig and calcWork/CalculateWork (SSA of the working tree) is executed symbolically with bits/n ranging over all 2^32 values; the exponent byte is case-split (256 cases) and each case is decided by z3 for all mantissa and sign values against an independently stated specification (defining inequalities of the truncated quotient, exact product, floor(2^256/(T+1))). No bound: unsat on every obligation is a proof for the whole domain, modulo the trusted base.",
    note="Trusted: go/ssa as the meaning of the source, the executor and its model of math/big as exact integer arithmetic, z3. Work is checked relative to CompactToBig's result, which is checked against the specification separately."),
 }
+claimed["C01"]=dict(cat="model_checking", ref="DESIGN.md §5 C01",
+   text="One inductive step: from an arbitrary stored headers table of k rows (every column symbolic) constrained only by the representation invariant INV-H (the property read as a state predicate), the real chainService.Add - through the real HeaderRepository, sql.HeadersDb and the SQL text of the working tree, evaluated by a relational model whose row order follows SQLite's EXPLAIN QUERY PLAN - is executed symbolically for an arbitrary submitted header; cvc5 decides on every path that INV-H holds again, that only state labels changed, that the answer is stored/duplicate/forbidden as specified and that the reported tip is the greatest-work header. Bounded in the number of stored rows (quick k<=3, thorough k<=5); inside the bound every tree shape, tie and arrival position is covered at once.",
+   note="Trusted: go/ssa, the executor and its intrinsics, the sqlm SQL model (validated on every run by replaying solver models of completed paths against the natively compiled code on real SQLite), cvc5. Hash function abstracted (arbitrary hash, acyclic parent links); stored works arbitrary, submitted bits from a 6-entry menu. Known finding C01-F2 (zero-work header extending the longest chain) is reported as KNOWN-FINDING.")
 NA={}
 checks=[]
 for p in props:
